@@ -111,6 +111,9 @@ func (s *life) Build(w *World) {
 		requestors = append(requestors, s.c)
 	}
 	nreq := 1 + t.Draw(3)
+	// swarm: some runs are failure-heavy (most requests refused), so that several
+	// failure statuses travel in one message
+	refuseHeavy := t.Chance(150)
 	for i := 0; i < nreq; i++ {
 		from := requestors[t.Draw(len(requestors))]
 		lr := &lifeReq{from: from}
@@ -128,6 +131,9 @@ func (s *life) Build(w *World) {
 			}
 		}
 		lr.reqHook = []string{"accept", "accept", "accept", "accept", "terminate", "pause", "reject"}[t.Draw(7)]
+		if refuseHeavy && t.Chance(800) {
+			lr.reqHook = []string{"terminate", "reject"}[t.Draw(2)]
+		}
 		if t.Chance(300) {
 			lr.blkHook = []string{"pause", "error"}[t.Draw(2)]
 			lr.blkAt = int64(1 + t.Draw(5))
